@@ -15,7 +15,7 @@ CONFIG = {
     'C07': dict(streams=[('inj_cycle', 880), ('reorder_cycle', 240), ('cycle_query', 240), ('newreq', 160), ('mid_session', 240)], keep='ov'),
     'C08': dict(streams=[('td_wf', 560), ('bu_wf', 320), ('multi', 80), ('panic', 240), ('abort_bu', 120), ('newreq', 160), ('same_abort', 80), ('fail_wf', 160)], keep='od'),
     'C09': dict(streams=[('td_coarse', 880), ('bu_wf', 320), ('multi', 80)], keep='dv', extra='stampsrc'),
-    'C16': dict(streams=[('td_wf', 240), ('bu_wf', 240), ('mixed_wf', 120), ('newreq', 160)], keep='oevdm', two_process=True, extra='fsclock'),
+    'C16': dict(streams=[('td_wf', 240), ('bu_wf', 240), ('mixed_wf', 120), ('newreq', 160), ('abort_bu', 200), ('panic', 160)], keep='oevdm', two_process=True, extra='fsclock'),
     'C17': dict(streams=[('td_wf', 480), ('bu_wf', 480), ('fail_wf', 240), ('panic', 160), ('failstamp', 160)], keep='v', extra='tracker'),
     'C18': dict(streams=[('fail_wf', 800), ('fail_bu', 500), ('fail_mixed', 300), ('fail_panic', 400)], keep='eov'),
     'C19': dict(streams=[('panic', 800), ('abort_bu', 160), ('inj_hidden', 200), ('inj_overlap', 200), ('inj_cycle', 200), ('same_abort', 120)], keep='od'),
@@ -72,7 +72,7 @@ def make_case(rng, stream, big=False):
         p = P.gen_multi_program(rng)
         steps = [['E', '0', '1'], ['S', '1', 'q', '0'], ['E', '0', '2'], ['S', '1', 'q', '0'], ['S', '1', 'q', '0']]
         return p, steps, norm_meta({}, 'td')
-    exact = stream == 'td_exact'
+    exact = stream == 'td_exact' or (stream == 'panic' and rng.random() < 0.5)      # half of the panic programs use exact checkers only
     fail = stream in ('fail_wf', 'failstamp', 'fail_bu', 'fail_mixed', 'fail_panic')
     coarse = stream == 'td_coarse'
     p = P.gen_wf_program(rng, nt, exact_only=exact, allow_fail=fail, coarse_writers=coarse, norepeat=(stream in ('td_class', 'bu_class')))
@@ -434,7 +434,7 @@ ALSO = {'C01': {('C18', 'stale-output'), ('C18', 'stale-resource'),
         'C02': {('C08', 'recorded-deps-differ'), ('C08', 'phantom-dependency'), ('C19', 'phantom-dependency')},
         # the bottom-up build must leave every known task up to date also when a checker fails while scheduling
         'C03': {('C18', 'stale-after-erring-bottom-up'), ('C09', 'dependency-not-checked'), ('C09', 'requirer-not-checked')},
-        'C04': {('C09', 'requirer-not-checked')},
+        'C04': {('C09', 'requirer-not-checked'), ('C09', 'dependency-not-checked')},
         # "every dependency it declared can cause it to be re-executed or scheduled": a task left stale by a bottom-up build that was
         # told about the change of a resource the task depends on
         'C08': {('C03', 'stale-after-bottom-up'), ('C18', 'stale-output'), ('C18', 'stale-resource'), ('C09', 'require-record-not-latest'),
